@@ -18,7 +18,7 @@ def gen_array_case(rng, cls, maxops):
         return nv[0]
 
     def construct(b):
-        k = rng.weighted([("size", 2), ("fill", 2), ("list", 2), ("ptr", 4)])
+        k = rng.weighted([("size", 2), ("fill", 2), ("list", 2), ("ptr", 4), ("adopt", 1)])
         if k == "size":
             n = rng.choice([0, 0, 1, 2, 3, 5, 8, 12])
             ops.append([0, b, n]); size[b] = n; unspec[b] = not cls
@@ -28,6 +28,9 @@ def gen_array_case(rng, cls, maxops):
         elif k == "list":
             n = rng.range(0, 5)
             ops.append([2, b] + [val() for _ in range(n)]); size[b] = n
+        elif k == "adopt":
+            n = rng.choice([0, 1, 2, 5, 9])
+            ops.append([16, b] + [val() for _ in range(n)]); size[b] = n
         else:
             n = rng.choice([0, 1, 2, 3, 6, 12])
             ops.append([3, b] + [val() for _ in range(n)]); size[b] = n
@@ -133,7 +136,7 @@ class C14(Spec):
     def classify(self, lines):
         names = {"0": "ctor_size", "1": "ctor_fill", "2": "ctor_list", "3": "ctor_ptr", "4": "copy_ctor", "5": "copy_assign",
                  "6": "move_ctor", "7": "move_assign", "8": "swap", "9": "resize", "10": "resize_fill", "11": "write",
-                 "12": "destroy", "13": "read", "14": "front_back", "15": "resize_fill_alias"}
+                 "12": "destroy", "13": "read", "14": "front_back", "15": "resize_fill_alias", "16": "ctor_adopt"}
         tags = {"op:" + names.get(l.split()[0], "?") for l in lines[1:]}
         hd = lines[0].split()
         tags.add("elem:tracked" if hd[0] == "1" else ("elem:double" if len(hd) > 2 and hd[2] == "1" else "elem:int"))
